@@ -609,7 +609,32 @@ def has_side_effect(node: ast.AST, safe_callable_whitelist: Collection[str] = fr
         return True
 
     if isinstance(node, (ast.ClassDef, ast.FunctionDef, ast.AsyncFunctionDef)):
-        return node.name != "_"
+        if node.name != "_" or node.decorator_list:
+            return True
+
+        # What is evaluated when the definition itself is executed
+        if isinstance(node, ast.ClassDef):
+            evaluated = [*node.bases, *(keyword.value for keyword in node.keywords), *node.body]
+        else:
+            arguments = node.args
+            evaluated = [
+                *arguments.defaults,
+                *arguments.kw_defaults,
+                *(
+                    arg.annotation
+                    for arg in (
+                        *arguments.posonlyargs,
+                        *arguments.args,
+                        *arguments.kwonlyargs,
+                        arguments.vararg,
+                        arguments.kwarg,
+                    )
+                    if arg is not None
+                ),
+                node.returns,
+            ]
+
+        return any(has_side_effect(item, safe_callable_whitelist) for item in evaluated)
 
     if isinstance(node, ast.For):
         return any(
